@@ -2,6 +2,8 @@ package main
 
 import (
 	"fmt"
+	"strings"
+	"go/constant"
 	"go/token"
 	"go/types"
 	"math/big"
@@ -34,6 +36,7 @@ func init() {
 			r := t.crc(t.curSt, a, tInt(0))
 			return &Val{T: r, KnownLen: -1}, true
 		},
+		"fmt.Sprintf":      sprintfModel,
 		"sort.SliceStable": sortModel,
 		"sort.Slice":       sortModel,
 		"sync/atomic.LoadPointer":  atomicLoad,
@@ -134,7 +137,9 @@ func (t *Tr) bigEndian(st *State, s, i Term, n int) Term {
 	var parts []Term
 	for k := 0; k < n; k++ {
 		b := sel(arr, add(add(sOff(s), i), tInt(int64(k))))
-		c.fact(and(le(tInt(0), b), le(b, tInt(255))))
+		if !boundTerm(b.S) {
+			c.fact(and(le(tInt(0), b), le(b, tInt(255))))
+		} // (under bound variables the range follows from the byte-range axiom of the memory version)
 		shift := new(big.Int).Lsh(big.NewInt(1), uint(8*(n-1-k)))
 		parts = append(parts, mul(b, tBig(shift)))
 	}
@@ -310,4 +315,118 @@ func sortModel(t *Tr, instr ssa.Instruction, cc *ssa.CallCommon, pos token.Pos) 
 	t.c.set(st, comp, store(mem, sArr(s), nw))
 	t.trusted["sort.Slice/SliceStable permute the slice (the comparison closure is not interpreted)"] = true
 	return nil, true
+}
+
+// sprintfModel: fmt.Sprintf with a constant format made of literal text, %s applied to strings and %d applied
+// to integers is the concatenation of the pieces (decimal rendering by str.from_int). Anything else is left to
+// the generic treatment of library calls (unconstrained result).
+func sprintfModel(t *Tr, instr ssa.Instruction, cc *ssa.CallCommon, pos token.Pos) (*Val, bool) {
+	if len(cc.Args) != 2 {
+		return nil, false
+	}
+	fc, ok := cc.Args[0].(*ssa.Const)
+	if !ok || fc.Value == nil || fc.Value.Kind() != constant.String {
+		return nil, false
+	}
+	format := constant.StringVal(fc.Value)
+	var args []ssa.Value
+	switch sl := cc.Args[1].(type) {
+	case *ssa.Const: // nil slice: no arguments
+	case *ssa.Slice:
+		al, ok := sl.X.(*ssa.Alloc)
+		if !ok || al.Referrers() == nil {
+			return nil, false
+		}
+		arr, ok := deref(al.Type()).Underlying().(*types.Array)
+		if !ok {
+			return nil, false
+		}
+		args = make([]ssa.Value, arr.Len())
+		for _, r := range *al.Referrers() {
+			ia, ok := r.(*ssa.IndexAddr)
+			if !ok {
+				continue
+			}
+			ic, ok := ia.Index.(*ssa.Const)
+			if !ok || ia.Referrers() == nil {
+				return nil, false
+			}
+			i := int(ic.Int64())
+			for _, rr := range *ia.Referrers() {
+				if st, ok := rr.(*ssa.Store); ok && st.Addr == ia {
+					if mi, ok := st.Val.(*ssa.MakeInterface); ok && i < len(args) {
+						args[i] = mi.X
+					}
+				}
+			}
+		}
+	default:
+		return nil, false
+	}
+	var parts []Term
+	lit := ""
+	ai := 0
+	flush := func() {
+		if lit != "" {
+			parts = append(parts, smtString(lit))
+			lit = ""
+		}
+	}
+	for i := 0; i < len(format); i++ {
+		ch := format[i]
+		if ch != '%' {
+			lit += string(ch)
+			continue
+		}
+		if i+1 >= len(format) {
+			return nil, false
+		}
+		i++
+		switch format[i] {
+		case '%':
+			lit += "%"
+		case 's':
+			if ai >= len(args) || args[ai] == nil || t.c.sortOf(args[ai].Type()) != SStr {
+				return nil, false
+			}
+			flush()
+			parts = append(parts, t.term(args[ai]))
+			ai++
+		case 'd':
+			if ai >= len(args) || args[ai] == nil || t.c.sortOf(args[ai].Type()) != SInt {
+				return nil, false
+			}
+			if b, ok := types.Unalias(args[ai].Type()).Underlying().(*types.Basic); !ok || b.Info()&types.IsInteger == 0 {
+				return nil, false
+			}
+			flush()
+			v := t.term(args[ai])
+			parts = append(parts, ite(lt(v, tInt(0)), app("str.++", SStr, smtString("-"), app("str.from_int", SStr, sub(tInt(0), v))), app("str.from_int", SStr, v)))
+			ai++
+		default:
+			return nil, false
+		}
+	}
+	flush()
+	if ai != len(args) {
+		return nil, false
+	}
+	var r Term
+	switch len(parts) {
+	case 0:
+		r = smtString("")
+	case 1:
+		r = parts[0]
+	default:
+		r = app("str.++", SStr, parts...)
+	}
+	t.trusted["model of fmt.Sprintf for constant formats made of literal text, %s (strings) and %d (integers): concatenation with decimal rendering"] = true
+	nm := t.c.fresh("sprintf", SStr)
+	t.c.assert(eq(nm, r))
+	return &Val{T: nm, KnownLen: -1}, true
+}
+
+// boundTerm: the term mentions a bound variable (quantifier variable, spec-function parameter or state parameter).
+func boundTerm(s string) bool {
+	return strings.Contains(s, "|q!") || strings.Contains(s, "|a!") || strings.Contains(s, "|$p:") || strings.Contains(s, "|l!")
 }
